@@ -119,6 +119,9 @@ def forbidden_grep():
     return hits
 
 
+DRIVER_TIMEOUT = 1500      # seconds per shard; a hanging driver is an infrastructure failure (exit 2), never a verdict
+
+
 def run_driver(mode, lines, shards=None):
     """answers of the model driver for the request lines (sharded over processes; order preserved)"""
     if not lines:
@@ -138,7 +141,10 @@ def run_driver(mode, lines, shards=None):
 
     def work(i):
         data = ('\n'.join(chunks[i]) + '\n').encode()
-        o, e = procs[i].communicate(data)
+        try:
+            o, e = procs[i].communicate(data, timeout=DRIVER_TIMEOUT)
+        except subprocess.TimeoutExpired:
+            procs[i].kill(); o, e = procs[i].communicate(); e = (e or b'') + b' [driver killed after timeout]'
         results[i] = (o.decode('utf-8', 'replace').split('\n'), e.decode('utf-8', 'replace'), procs[i].returncode)
     ths = [threading.Thread(target=work, args=(i,)) for i in range(shards)]
     for t in ths: t.start()
